@@ -44,7 +44,10 @@ def node_strategy(allow_frozen=True, hashable=False, min_size=0):
             lambda l: {'leaf': ['list', l]}),
         st.lists(st.integers(0, 2), max_size=2).map(
             lambda l: {'leaf': ['tuple', l]}),
-        st.integers(0, 3).map(lambda i: {'leaf': ['arr', i]}))
+        st.integers(0, 3).map(lambda i: {'leaf': ['arr', i]}),
+        # a dict held inside a list / tuple value
+        st.integers(0, 3).map(lambda i: {'leaf': ['listdict', i]}),
+        st.integers(0, 3).map(lambda i: {'leaf': ['tupledict', i]}))
   def ext(inner):
     return st.tuples(
         st.lists(st.tuples(st.sampled_from(KEYS), inner), min_size=min_size,
@@ -63,6 +66,10 @@ def build(n, top=True):
       return tuple(v)
     if kind == 'list':
       return list(v)
+    if kind == 'listdict':
+      return [{'q': v, 'r': {'s': v}}, v]
+    if kind == 'tupledict':
+      return ({'q': v},)
     return v
   d = {k: build(v, False) for k, v in n['d']}
   if n.get('frozen') and not top:
@@ -117,13 +124,17 @@ def snap_del(s, key):
   return ('D', tuple(sorted(items.items())))
 
 
-def mutable_dicts(x, out, seen):
-  """All plain dict nodes reachable through dict-only paths."""
+def mutable_dicts(x, out, seen, deep=False):
+  """All plain dict nodes reachable through dict-only paths (deep: also
+  through list / tuple values)."""
   if isinstance(x, dict) and id(x) not in seen:
     seen.add(id(x))
     out.append(x)
     for v in x.values():
-      mutable_dicts(v, out, seen)
+      mutable_dicts(v, out, seen, deep)
+  elif deep and isinstance(x, (list, tuple)):
+    for v in x:
+      mutable_dicts(v, out, seen, deep)
 
 
 OPS = ['new_source', 'freeze', 'unfreeze', 'copy', 'pop', 'getitem', 'iterate',
@@ -146,6 +157,7 @@ class Model:
     self.sources = []     # mutable python dicts the user owns
     self.frozen = []      # (FrozenDict, snapshot at creation)
     self.returned = []    # mutable objects flax returned
+    self.unfrozen = []    # results of unfreeze (fresh all the way down)
     self.stats = {'mutations': 0, 'mut_after_freeze': 0, 'ops': 0}
 
   def add_frozen(self, fd, s):
@@ -200,6 +212,7 @@ def run_history(case, ctx):
         return all(no_frozen(v) for v in x.values()) if isinstance(x, dict) else True
       require(no_frozen(d), 'unfreeze left a nested FrozenDict')
       m.returned.append(d)
+      m.unfrozen.append(d)
     elif op in ('copy', 'corecopy'):
       fd, s = m.frozen[i % len(m.frozen)]
       add = build(spec)
@@ -321,6 +334,12 @@ def run_history(case, ctx):
     elif op == 'mutate':
       pool, pool_ret = [], []
       seen = set()
+      # what unfreeze returns is a copy all the way down, dicts inside list
+      # / tuple values included; other returned values and the sources are
+      # followed through dicts only (dicts inside sequences are shared with
+      # the FrozenDict: known finding C15:dict-inside-sequence-shared)
+      for x in m.unfrozen:
+        mutable_dicts(x, pool_ret, seen, deep=True)
       for x in m.returned:
         mutable_dicts(x, pool_ret, seen)
       for x in m.sources:
@@ -661,3 +680,25 @@ def struct_dataclass(case, ctx):
       require(np.allclose(getattr(g, n), 2 * vals[n]), f'grad data {n}')
   ctx.note(labels=[style, f'static{len(static)}', f'data{len(data)}'],
            nontrivial=bool(static) and bool(data))
+
+
+# ----------------------------------------------------------------------------
+@clause('known_probes', enum=lambda ctx: [['source'], ['indexing']],
+        quick_shards=1, thorough_shards=1,
+        rule='re-executes the recorded reproductions of the known finding '
+        '(a dict held inside a list / tuple value is shared with the source '
+        'at construction and handed out by indexing)')
+def known_probes(case, ctx):
+  how = case[0]
+  src = {'layers': [{'w': 1}], 'n': 2}
+  fd = freeze(src)
+  before = snap(fd)
+  if how == 'source':
+    src['layers'][0]['w'] = 99
+  else:
+    fd['layers'][0]['w'] = 99
+  if snap(fd) != before:
+    raise Violation(f'FrozenDict changed after construction through a dict '
+                    f'nested in a list value ({how}): {fd}',
+                    key='C15:dict-inside-sequence-shared')
+
